@@ -126,6 +126,10 @@ def execute(case):
             ok = ck.require([int(n) for n in y.M] == [int(n) for n in x.M], what + "_M", "M %s != %s" % (y.M, x.M))
         ok = ok and ck.require([int(r) for r in y.R] == [int(r) for r in x.R], what + "_R", "R %s != %s" % (y.R, x.R))
         ok = ok and ck.require(all(c.dtype == dtype for c in y.cores), what + "_dtype", "dtype %s" % y.cores[0].dtype)
+        # .shape is derived bookkeeping (list of ints, or of (m, n) pairs for an operator): it has to follow N / M and the cores
+        norm = lambda sh: [tuple(int(a) for a in e) if isinstance(e, (tuple, list)) else int(e) for e in sh]
+        exp = [(int(c.shape[1]), int(c.shape[2])) for c in y.cores] if y.is_ttm else [int(c.shape[1]) for c in y.cores]
+        ok = ok and ck.require(norm(y.shape) == norm(x.shape) == exp, what + "_shape", "shape %s, source %s, cores %s" % (y.shape, x.shape, exp))
         return ok
 
     def meta_independent(y, what):
